@@ -10,7 +10,8 @@ namespace Vita.C16
 open IxE BE Op0 Op
 
 /-- machine state at the entry of a strategy call -/
-def M.enter {α} (s : Sets α) (rng clT clV : Nat) : M α := ⟨s.tr, s.va, [], rng, clT, clV, none⟩
+def M.enter {α} (s : Sets α) (rng clT clV : Nat) (sch : Nat × Nat) : M α :=
+  ⟨s.tr, s.va, [], rng, clT, clV, none, sch⟩
 
 /-- the draw used in the iteration with index `i` of a shuffle over `n` elements that starts at stream
     position `rng`: the raw value reduced modulo `i + 1` -/
@@ -50,6 +51,38 @@ theorem skip_machine (n p : Nat) (hp : p < 100) (hsz : n * 100 < 2 ^ 64) :
   · have : n * (100 - p) ≤ n * 100 := Nat.mul_le_mul_left _ (by omega)
     omega
 
+/-! ### `dataframe::clone_schema` -/
+
+/-- `clone_schema` moves no example: whatever the two frames named, both example lists (hence their
+    multisets), the draw counter, the evaluator counters, the locals and the return status are untouched;
+    only the abstract schema changes. -/
+theorem cloneSchema_frames {α} (ops : ElemOps α) (cf : CallFn α) (env : Env) (arg : Option Cont) (d s : Cont)
+    (m m' : M α) (h : exec0 ops cf env arg (.cloneSchema d s) m = some m') :
+    m'.tr = m.tr ∧ m'.va = m.va ∧ m'.loc = m.loc ∧ m'.rng = m.rng ∧ m'.clT = m.clT ∧ m'.clV = m.clV ∧
+    m'.ret = m.ret := by
+  simp only [exec0, Option.bind_eq_bind] at h
+  cases hs : m.getSch arg s with
+  | none => simp [hs] at h
+  | some v =>
+    simp only [hs, Option.bind_some] at h
+    have key : ∀ w, (m.putSch arg d v = some w) → w.tr = m.tr ∧ w.va = m.va ∧ w.loc = m.loc ∧ w.rng = m.rng ∧
+        w.clT = m.clT ∧ w.clV = m.clV ∧ w.ret = m.ret := by
+      intro w hw
+      unfold M.putSch at hw
+      split at hw
+      · cases hw; simp
+      · cases hw; simp
+      · split at hw
+        · cases hw; simp
+        · cases hw; simp
+        · cases hw
+    exact key m' h
+
+/-- `validation_.clone_schema(training_)`: afterwards the validation frame has the training frame's schema -/
+theorem cloneSchema_va_tr {α} (ops : ElemOps α) (cf : CallFn α) (env : Env) (arg : Option Cont) (m : M α) :
+    exec0 ops cf env arg (.cloneSchema .va .tr) m = some { m with sch := (m.sch.1, m.sch.1) } := by
+  simp [exec0, M.getSch, M.putSch]
+
 /-! ### hold-out -/
 
 theorem lookup_filter_ne (x y : String) (l : List (String × Nat)) (h : (y == x) = false) :
@@ -82,6 +115,7 @@ theorem lookup_setLoc {α} (m : M α) (x y : String) (v : Nat) :
 @[simp] theorem setLoc_clT {α} (m : M α) (x v) : (m.setLoc x v).clT = m.clT := rfl
 @[simp] theorem setLoc_clV {α} (m : M α) (x v) : (m.setLoc x v).clV = m.clV := rfl
 @[simp] theorem setLoc_ret {α} (m : M α) (x v) : (m.setLoc x v).ret = m.ret := rfl
+@[simp] theorem setLoc_sch {α} (m : M α) (x v) : (m.setLoc x v).sch = m.sch := rfl
 
 def swapBody : List Op0 :=
   [set "curr" (var "i"), set "rand" (sup (add 64 (var "i") (lit 1))), swap .tr (var "curr") (var "rand")]
@@ -92,7 +126,7 @@ theorem swapBody_step {α} (ops : ElemOps α) (cf : CallFn α) (env : Env) (m : 
     ∃ m', exec0s ops cf env none swapBody m = some m' ∧
       m'.tr = swapAt m.tr v (env.draws m.rng % (v + 1)) ∧ m'.va = m.va ∧ m'.rng = m.rng + 1 ∧
       m'.clT = m.clT ∧ m'.clV = m.clV ∧ m'.ret = none ∧
-      m'.loc.lookup "i" = some v ∧ m'.loc.lookup "skip" = m.loc.lookup "skip" := by
+      m'.loc.lookup "i" = some v ∧ m'.loc.lookup "skip" = m.loc.lookup "skip" ∧ m'.sch = m.sch := by
   have hv1 : addW 64 v 1 = v + 1 := addW_of_lt _ _ _ (by omega)
   have hdl : env.draws m.rng % (v + 1) < m.tr.length := by
     have := Nat.mod_lt (env.draws m.rng) (show 0 < v + 1 by omega); omega
@@ -106,28 +140,28 @@ theorem loop_shuffle {α} (ops : ElemOps α) (cf : CallFn α) (env : Env) (t : N
       ∃ m', loopDown ops cf env none "i" (ge (var "i") (var "skip")) swapBody fuel m = some m' ∧
         m'.tr = shuffleTail (fun i => env.draws (m.rng + (v - i)) % (i + 1)) t v m.tr ∧
         m'.va = m.va ∧ m'.rng = m.rng + t ∧ m'.clT = m.clT ∧ m'.clV = m.clV ∧ m'.ret = none ∧
-        m'.loc.lookup "skip" = some k := by
+        m'.loc.lookup "skip" = some k ∧ m'.sch = m.sch := by
   induction t with
   | zero =>
     intro v k m fuel ht hk hv hl hf hi hskip hr
     obtain ⟨f, rfl⟩ : ∃ f, fuel = f + 1 := ⟨fuel - 1, by omega⟩
     have hlt : ¬ (v ≥ k) := by omega
-    refine ⟨m, ?_, rfl, rfl, rfl, rfl, rfl, hr, hskip⟩
+    refine ⟨m, ?_, rfl, rfl, rfl, rfl, rfl, hr, hskip, rfl⟩
     simp [loopDown, evalB, evalIx, hi, hskip, hlt, M.setRng, hr]
     cases m; simp_all
   | succ t ih =>
     intro v k m fuel ht hk hv hl hf hi hskip hr
     obtain ⟨f, rfl⟩ : ∃ f, fuel = f + 1 := ⟨fuel - 1, by omega⟩
     have hge : v ≥ k := by omega
-    obtain ⟨m1, hb, h1tr, h1va, h1rng, h1clT, h1clV, h1ret, h1i, h1skip⟩ :=
+    obtain ⟨m1, hb, h1tr, h1va, h1rng, h1clT, h1clV, h1ret, h1i, h1skip, h1sch⟩ :=
       swapBody_step ops cf env m v hi hv hl hr
     have hdec : decr64 v = v - 1 := decr64_pos v (by omega) (by omega)
     have hm : (m.setRng m.rng) = m := rfl
-    obtain ⟨m2, h2, h2tr, h2va, h2rng, h2clT, h2clV, h2ret, h2skip⟩ :=
+    obtain ⟨m2, h2, h2tr, h2va, h2rng, h2clT, h2clV, h2ret, h2skip, h2sch⟩ :=
       ih (v - 1) k (m1.setLoc "i" (v - 1)) f (by omega) hk
         (by simp [h1tr, swapAt_length]; omega) (by simp [h1tr, swapAt_length]; exact hl) (by omega)
         (by simp [lookup_setLoc]) (by simp [lookup_setLoc, h1skip, hskip]) (by simp [h1ret])
-    refine ⟨m2, ?_, ?_, ?_, ?_, ?_, ?_, h2ret, h2skip⟩
+    refine ⟨m2, ?_, ?_, ?_, ?_, ?_, ?_, h2ret, h2skip, by simp [h2sch, h1sch]⟩
     · rw [loopDown]
       simp [evalB, evalIx, hi, hskip, hge, hr, hm, hb, h1i, hdec, h2]
     · rw [h2tr]
@@ -142,24 +176,24 @@ theorem loop_shuffle {α} (ops : ElemOps α) (cf : CallFn α) (env : Env) (t : N
     · simp [h2clV, h1clV]
 /-- run 0: the table computes `holdoutInit` on the draws `drawOf`, consumes one raw value per swap and
     clears the training evaluator iff it was given one -/
-theorem holdout_bridge0 {α} (ops : ElemOps α) (env : Env) (s : Sets α) (rng clT clV : Nat)
+theorem holdout_bridge0 {α} (ops : ElemOps α) (env : Env) (s : Sets α) (rng clT clV : Nat) (sch : Nat × Nat)
     (hp : env.perc < 100) (hn : 1 ≤ s.tr.length) (hsz : s.tr.length * 100 < 2 ^ 64) :
-    ∃ loc, runFn ops Tables.prog env 1 .holdoutInit [("run", 0)] none (M.enter s rng clT clV) =
+    ∃ loc, runFn ops Tables.prog env 1 .holdoutInit [("run", 0)] none (M.enter s rng clT clV sch) =
       some ⟨(holdoutInit (drawOf env rng s.tr.length) env.perc 0 s).tr,
             (holdoutInit (drawOf env rng s.tr.length) env.perc 0 s).va, loc,
             rng + (s.tr.length - skipOf s.tr.length env.perc),
-            clT + (if env.hasEvaT then 1 else 0), clV, none⟩ := by
+            clT + (if env.hasEvaT then 1 else 0), clV, none, (sch.1, sch.1)⟩ := by
   have hk := skip_machine s.tr.length env.perc hp hsz
   have hsub : subW 64 s.tr.length 1 = s.tr.length - 1 := subW_of_le _ _ _ (by omega) hn
   have hle := skipOf_le s.tr.length env.perc hn
   have hpos := skipOf_pos s.tr.length env.perc
   simp [runFn, Tables.prog, Tables.holdoutInit, execOps, execOp, evalB, evalIx, M.enter, List.lookup,
     exec0s, exec0, M.setRng, M.setLoc, M.get, hk, hsub]
-  obtain ⟨m', hloop, htr, hva, hrng, hclT, hclV, hret, hskip⟩ :=
+  obtain ⟨m', hloop, htr, hva, hrng, hclT, hclV, hret, hskip, hsch⟩ :=
     loop_shuffle ops (fun _ _ _ => none) env (s.tr.length - skipOf s.tr.length env.perc)
       (s.tr.length - 1) (skipOf s.tr.length env.perc)
       ⟨s.tr, s.va, [("i", s.tr.length - 1), ("skip", skipOf s.tr.length env.perc), ("available", s.tr.length),
-        ("perc", env.perc), ("run", 0)], rng, clT, clV, none⟩ (s.tr.length - 1 + 2)
+        ("perc", env.perc), ("run", 0)], rng, clT, clV, none, sch⟩ (s.tr.length - 1 + 2)
       (by omega) hpos (by simp; omega) (by simp; omega) (by omega) (by simp [List.lookup])
       (by simp [List.lookup]) rfl
   rw [swapBody] at hloop
@@ -173,17 +207,17 @@ theorem holdout_bridge0 {α} (ops : ElemOps α) (env : Env) (s : Sets α) (rng c
     (s.tr.length - 1) s.tr = sh at hlen htr ⊢
   have htk : List.take (s.tr.length - skipOf s.tr.length env.perc) (List.drop (skipOf s.tr.length env.perc) sh)
       = List.drop (skipOf s.tr.length env.perc) sh := List.take_of_length_le (by simp; omega)
-  obtain ⟨tr', va', loc', rng', clT', clV', ret'⟩ := m'
-  simp only at htr hva hrng hclT hclV hret hskip
-  subst htr hva hrng hclT hclV hret
+  obtain ⟨tr', va', loc', rng', clT', clV', ret', sch'⟩ := m'
+  simp only at htr hva hrng hclT hclV hret hskip hsch
+  subst htr hva hrng hclT hclV hret hsch
   cases hE : env.hasEvaT <;>
-    simp [hskip, lookup_setLoc, M.put, M.setLoc, List.lookup, hlen, hle, htk]
+    simp [hskip, lookup_setLoc, M.put, M.setLoc, List.lookup, hlen, hle, htk, M.getSch, M.putSch]
 
 /-- later runs: nothing happens (the `return` is reached before anything else) -/
 theorem holdout_bridge_later {α} (ops : ElemOps α) (env : Env) (run : Nat) (s : Sets α) (rng clT clV : Nat)
-    (hrun : 0 < run) :
-    ∃ loc, runFn ops Tables.prog env 1 .holdoutInit [("run", run)] none (M.enter s rng clT clV) =
-      some ⟨s.tr, s.va, loc, rng, clT, clV, some none⟩ := by
+    (sch : Nat × Nat) (hrun : 0 < run) :
+    ∃ loc, runFn ops Tables.prog env 1 .holdoutInit [("run", run)] none (M.enter s rng clT clV sch) =
+      some ⟨s.tr, s.va, loc, rng, clT, clV, some none, sch⟩ := by
   simp [runFn, Tables.prog, Tables.holdoutInit, execOps, execOp, evalB, evalIx, M.enter, List.lookup, hrun,
     exec0s, exec0, M.setRng]
 
@@ -204,16 +238,23 @@ theorem run_clear (env : Env) (k : Nat) (m : M Ex) :
       some { m with clT := m.clT + 1, clV := m.clV + 1, loc := [], ret := none } := by
   simp [runFn, Tables.prog, Tables.clearEvaluators, execOps, execOp, exec0]
 
+/-- the metadata after `move_to_validation`: an empty validation frame that is about to receive examples
+    takes the schema of the training frame -/
+def schMove {α} (m : M α) : Nat × Nat :=
+  if m.va.isEmpty && !m.tr.isEmpty then (m.sch.1, m.sch.1) else m.sch
+
 theorem run_move (env : Env) (k : Nat) (m : M Ex) :
     runFn exOps Tables.prog env (k + 1) .moveToValidation [] none m =
-      some { m with tr := [], va := m.va ++ m.tr, loc := [], ret := none } := by
-  simp [runFn, Tables.prog, Tables.moveToValidation, execOps, execOp, exec0, M.get, M.put, evalIx, M.setRng]
+      some { m with tr := [], va := m.va ++ m.tr, loc := [], ret := none, sch := schMove m } := by
+  cases hc : (m.va.isEmpty && !m.tr.isEmpty) <;>
+    simp [runFn, Tables.prog, Tables.moveToValidation, execOps, execOp, exec0, exec0s, M.get, M.put, evalIx, evalB,
+      M.setRng, M.getSch, M.putSch, schMove, hc] <;> simp_all
 
 
 
 theorem call_move (env : Env) (k : Nat) (m : M Ex) :
     callAt exOps Tables.prog env (k + 1) .moveToValidation none m =
-      some { m with tr := [], va := m.va ++ m.tr } := by
+      some { m with tr := [], va := m.va ++ m.tr, sch := schMove m } := by
   simp [callAt, run_move]
 
 theorem call_reset_tr (env : Env) (k : Nat) (m : M Ex) :
@@ -246,7 +287,8 @@ theorem run_shakeImpl (env : Env) (k : Nat) (m : M Ex)
     (hts : env.ts (m.va.length + m.tr.length) ≤ m.va.length + m.tr.length) :
     ∃ loc, runFn exOps Tables.prog env (k + 2) .shakeImpl [] none m =
       some { m with tr := (shakeImpl env.P env.ts env.sel ⟨m.tr, m.va⟩).tr,
-                    va := (shakeImpl env.P env.ts env.sel ⟨m.tr, m.va⟩).va, loc := loc, ret := none } := by
+                    va := (shakeImpl env.P env.ts env.sel ⟨m.tr, m.va⟩).va, loc := loc, ret := none,
+                    sch := schMove m } := by
   rw [runFn_succ]
   simp [Tables.prog, Tables.shakeImpl, execOps, execOp, exec0, call_move, call_reset_tr, M.get, M.put, M.setLoc,
     evalB, evalIx, List.lookup, M.setRng, exec0s]
@@ -263,44 +305,44 @@ theorem run_shakeImpl (env : Env) (k : Nat) (m : M Ex)
   rw [← hlen] at hts
   unfold pivotOf
   by_cases h0 : List.countP (fun (y : Ex × Bool) => !y.2) parted = 0
-  · simp [List.lookup, hts, List.take_of_length_le, h0]
+  · simp [List.lookup, hts, List.take_of_length_le, h0]; rfl
   · by_cases h1 : List.countP (fun (y : Ex × Bool) => !y.2) parted = parted.length
-    · simp [h0, h1, List.lookup, hts, List.take_of_length_le]
-    · simp [h0, h1, List.lookup, hc, List.take_of_length_le]
+    · simp [h0, h1, List.lookup, hts, List.take_of_length_le]; rfl
+    · simp [h0, h1, List.lookup, hc, List.take_of_length_le]; rfl
 
 theorem call_shakeImpl (env : Env) (k : Nat) (m : M Ex)
     (hts : env.ts (m.va.length + m.tr.length) ≤ m.va.length + m.tr.length) :
     callAt exOps Tables.prog env (k + 2) .shakeImpl none m =
       some { m with tr := (shakeImpl env.P env.ts env.sel ⟨m.tr, m.va⟩).tr,
-                    va := (shakeImpl env.P env.ts env.sel ⟨m.tr, m.va⟩).va } := by
+                    va := (shakeImpl env.P env.ts env.sel ⟨m.tr, m.va⟩).va, sch := schMove m } := by
   obtain ⟨loc, h⟩ := run_shakeImpl env k m hts
   simp [callAt, h]
 
 /-- what a strategy call leaves behind, read off the machine state -/
 def M.res (m : M Ex) (clT0 : Nat) : Res := ⟨⟨m.tr, m.va⟩, m.ret == some (some true), m.clT - clT0⟩
 
-theorem dssInit_bridge (env : Env) (run : Nat) (s : St) (rng clT clV : Nat)
+theorem dssInit_bridge (env : Env) (run : Nat) (s : St) (rng clT clV : Nat) (sch : Nat × Nat)
     (hts : env.ts (s.va.length + s.tr.length) ≤ s.va.length + s.tr.length) :
-    ∃ loc, runFn exOps Tables.prog env 3 .dssInit [("run", run)] none (M.enter s rng clT clV) =
+    ∃ loc sch', runFn exOps Tables.prog env 3 .dssInit [("run", run)] none (M.enter s rng clT clV sch) =
       some ⟨(dssInit env.P env.ts env.sel s).st.tr, (dssInit env.P env.ts env.sel s).st.va, loc, rng,
-            clT + 1, clV + 1, none⟩ := by
+            clT + 1, clV + 1, none, sch'⟩ := by
   rw [runFn_succ]
-  have h := call_shakeImpl env 0 ⟨resetAD s.tr, resetAD s.va, [("run", run)], rng, clT, clV, none⟩
+  have h := call_shakeImpl env 0 ⟨resetAD s.tr, resetAD s.va, [("run", run)], rng, clT, clV, none, sch⟩
     (by simpa [resetAD_length] using hts)
   simp [Tables.prog, Tables.dssInit, execOps, execOp, exec0, call_reset_tr, call_reset_va, call_clear, M.enter, h,
     dssInit]
 
-theorem dssClose_bridge (env : Env) (run : Nat) (s : St) (rng clT clV : Nat) :
-    ∃ loc, runFn exOps Tables.prog env 2 .dssClose [("run", run)] none (M.enter s rng clT clV) =
-      some ⟨(dssClose s).st.tr, (dssClose s).st.va, loc, rng, clT + 1, clV + 1, none⟩ := by
+theorem dssClose_bridge (env : Env) (run : Nat) (s : St) (rng clT clV : Nat) (sch : Nat × Nat) :
+    ∃ loc sch', runFn exOps Tables.prog env 2 .dssClose [("run", run)] none (M.enter s rng clT clV sch) =
+      some ⟨(dssClose s).st.tr, (dssClose s).st.va, loc, rng, clT + 1, clV + 1, none, sch'⟩ := by
   rw [runFn_succ]
   simp [Tables.prog, Tables.dssClose, execOps, execOp, exec0, call_move, call_clear, M.enter, dssClose,
     moveToValidation]
 
-theorem dssShake_bridge_skip (env : Env) (g : Nat) (s : St) (rng clT clV : Nat)
+theorem dssShake_bridge_skip (env : Env) (g : Nat) (s : St) (rng clT clV : Nat) (sch : Nat × Nat)
     (h : g = 0 ∨ (0 < env.gap ∧ g % env.gap ≠ 0)) :
-    ∃ loc, runFn exOps Tables.prog env 3 .dssShake [("generation", g)] none (M.enter s rng clT clV) =
-      some ⟨s.tr, s.va, loc, rng, clT, clV, some (some false)⟩ := by
+    ∃ loc, runFn exOps Tables.prog env 3 .dssShake [("generation", g)] none (M.enter s rng clT clV sch) =
+      some ⟨s.tr, s.va, loc, rng, clT, clV, some (some false), sch⟩ := by
   rw [runFn_succ]
   rcases h with h | ⟨hg, h⟩
   · simp [Tables.prog, Tables.dssShake, execOps, execOp, exec0, exec0s, M.enter, evalB, evalIx, List.lookup,
@@ -312,16 +354,16 @@ theorem dssShake_bridge_skip (env : Env) (g : Nat) (s : St) (rng clT clV : Nat)
       simp [Tables.prog, Tables.dssShake, execOps, execOp, exec0, exec0s, M.enter, evalB, evalIx, List.lookup,
         M.setLoc, M.setRng, h0, h, this]
 
-theorem dssShake_bridge_reshuffle (env : Env) (g : Nat) (s : St) (rng clT clV : Nat)
+theorem dssShake_bridge_reshuffle (env : Env) (g : Nat) (s : St) (rng clT clV : Nat) (sch : Nat × Nat)
     (hg : g ≠ 0) (hgap : 0 < env.gap) (hd : g % env.gap = 0)
     (hts : env.ts (s.va.length + s.tr.length) ≤ s.va.length + s.tr.length) :
-    ∃ loc, runFn exOps Tables.prog env 3 .dssShake [("generation", g)] none (M.enter s rng clT clV) =
+    ∃ loc sch', runFn exOps Tables.prog env 3 .dssShake [("generation", g)] none (M.enter s rng clT clV sch) =
       some ⟨(shakeImpl env.P env.ts env.sel ⟨incAge s.tr, incAge s.va⟩).tr,
             (shakeImpl env.P env.ts env.sel ⟨incAge s.tr, incAge s.va⟩).va, loc, rng,
-            clT + 1, clV + 1, some (some true)⟩ := by
+            clT + 1, clV + 1, some (some true), sch'⟩ := by
   rw [runFn_succ]
   have hne : env.gap ≠ 0 := by omega
-  have h := call_shakeImpl env 0 ⟨incAge s.tr, incAge s.va, [("gap", env.gap), ("generation", g)], rng, clT, clV, none⟩
+  have h := call_shakeImpl env 0 ⟨incAge s.tr, incAge s.va, [("gap", env.gap), ("generation", g)], rng, clT, clV, none, sch⟩
     (by simpa [incAge] using hts)
   have ea : applyFn exOps .incAge = Ex.older := rfl
   have e1 : ∀ l, List.map Ex.older l = incAge l := fun _ => rfl
